@@ -9,6 +9,7 @@ import (
 	"os"
 	"os/exec"
 	"path/filepath"
+	"sync/atomic"
 	"time"
 
 	"verif/sim/core"
@@ -20,6 +21,7 @@ import (
 	"verif/sim/props/c13"
 	"verif/sim/props/c14"
 	"verif/sim/props/c18"
+	"verif/sim/sched"
 )
 
 func props() map[string]core.Prop {
@@ -131,8 +133,14 @@ type racedProp struct {
 }
 
 func (r *racedProp) Run(c interface{}, focus *core.Violation) *core.Outcome {
+	free0 := atomic.LoadInt64(&sched.FreeRuns)
 	o := r.Prop.Run(c, focus)
 	viols, noise := r.w.check()
+	if atomic.LoadInt64(&sched.FreeRuns) != free0 {
+		// the watchdog released the tasks to run side by side for real: no verdict from the detector for this run
+		o.Count("race_reports_dropped_after_free_run", int64(len(viols)+len(noise)))
+		return o
+	}
 	for _, n := range noise {
 		o.Count("race_reports_without_gorm_access", 1)
 		fmt.Fprintln(os.Stderr, "NOTE:", n)
